@@ -223,6 +223,42 @@ def worker(job):
     return st
 
 
+def nul_worker(job):
+    """(round 9) -I together with -0 / --null: the items are the NUL-terminated stretches (C05: split only at that one byte) and each
+    item is a 'line' of replace mode: one run per non-empty item, in order, R replaced by the whole item - blanks and newlines included."""
+    k, n, seed = job
+    st = Stats()
+    rng = common.rng_for(seed, "C20nul", k)
+    wd = common.mkscratch("C20z%d" % k)
+    try:
+        for i in range(n):
+            items = []
+            for _ in range(rng.randint(0, 6)):
+                w = [rng.choice(["a", "bc", "d e", "x  y", "f\ng", "é", "1", "z z z", "end\n", ""]) for _ in range(rng.randint(1, 2))]
+                items.append("".join(w))
+            R = rng.choice(["{}", "_", "%", "XX"])
+            optI = ["-I", R] if R != "{}" or rng.random() < 0.5 else rng.choice([["-i"], ["--replace"]])
+            nul = rng.choice([["-0"], ["--null"]])
+            opts = nul + optI if rng.random() < 0.5 else optI + nul
+            initial = [rng.choice(["X" + R, R, "pre", R + "-" + R, "a b", "Y" + R + "Z"]) for _ in range(rng.randint(1, 3))]
+            data = "\0".join(items).encode() + (b"\0" if items and rng.random() < 0.7 else b"")
+            r = xref.run_xargs(wd, opts, [a.encode() for a in initial], data)
+            st.inc("evaluations")
+            st.inc("replace_mode_runs_with_nul_terminated_items")
+            st.add("distinct", (tuple(opts), tuple(initial), data))
+            if any("\n" in it or " " in it for it in items):
+                st.inc("nul_items_with_blanks_or_newlines")
+            detail = {"argv": ["xargs"] + opts + ["REC"] + initial, "stdin": repr(data[:80])}
+            rp = {"opts": opts, "initial": initial, "stdin": data.hex()}
+            if r.timed_out or r.rc in (101, 134, -6, -11):
+                st.violate("panic-or-hang", None, dict(detail, rc=r.rc, stderr=r.err[-200:]), rp)
+                continue
+            judge_replace(st, detail, rp, r, items, initial, R)
+    finally:
+        common.force_rmtree(wd)
+    return st
+
+
 def run(ctx):
     ctx.rule = ("0-8 input lines (internal blanks, containing R itself, empty lines interleaved, last line without newline), "
                 "initial argument lists with 0-3 occurrences of R per argument, R in {{}, _, %, XX, {, @@, §, →, «», é, 日本} spelled -I R / -IR / "
@@ -238,6 +274,8 @@ def run(ctx):
     nw = common.NCPU
     n = ctx.scale(1600, 480000)
     ctx.pmap(worker, [(k, n // nw, ctx.seed) for k in range(nw)])
+    ctx.pmap(nul_worker, [(k, ctx.scale(12, 2000), ctx.seed) for k in range(nw)])
+    ctx.require("nul_items_with_blanks_or_newlines", 20)
     for key in ("empty_input_runs", "replace_mode_runs", "mode_n_after_mixed_options", "mode_L_after_mixed_options", "I_with_n1",
                 "replace_mode_runs_with_multibyte_R", "runs_with_a_line_too_long_to_pass",
                 "replace_mode_runs_with_lines_that_are_not_utf8", "replace_mode_runs_where_only_earlier_lines_fail"):
